@@ -156,7 +156,7 @@ NON_MONTHS = [
     -1, 0, 13, 10**6, -12, 2**70,
     "0", "13", "00", "000", "99", "012345", "{jan}", '"1"', "{1}", '"jan"', "{January}", "janu", "sept", "",
     " jan", "jan ", "1.0", "+1", "-1", "1 ", " 1", "jan.", "j", "ja", "mayy", "ma", "Janvier", "march 1", "1e0",
-    "0x1", "1_0", "jan # feb", "{}", '""', "month", "décembre", "juni",
+    "0x1", "1_0", "jan # feb", "{}", '""', "month", "décembre", "juni", "ſep", "Auguſt", "ｊａｎ", "ｍａｙ", "jan\u0301", "ȷan", "İan", " 7 ", "+3", "1_2", "0_9", "1 2", "٠٧",
     [], ["jan"], [1], {"none": 1}, {"nameparts": {"first": ["jan"], "von": [], "last": ["May"], "jr": []}},
     1.0, 5.5,
     {"bigdigits": 4300, "digit": "1"}, {"bigdigits": 6000, "digit": "9"}, {"bigdigits": 60, "digit": "0"},
